@@ -20,6 +20,6 @@ PART["C16"] = {
     "runs": [{"name": "httphandler-schedule", "pkg": PKG["http"], "run": "^TestVF_C16_HTTP$", "timeout": "20m", "timeout_thorough": "40m"}],
     "rule": "HTTP clause: the real DrandHandler over httptest for chains with periods {1,2,3,7,30,60,3600} s whose genesis puts the real clock at a random offset inside a round: "
             "Last-Modified of /public/latest = the served round's scheduled time, Expires = the next round's, /health expected = the round current during the request (bracketed by the clock before and after), "
-            "all by harness arithmetic; distinct = distinct (period, clock offset, scheme)",
+            "all by harness arithmetic; requests for rounds far beyond the schedule (current+3 ... 2^63, 2^64-1) against an upstream that would answer anything must be neither answered 200 nor forwarded; distinct = distinct (period, clock offset, scheme)",
     "assumptions": ["the HTTP handler reads the real clock: instants are bracketed, never compared exactly"],
 }
